@@ -100,21 +100,32 @@ HOPS = {  # name -> (theory kind, lens angle, m, x, kz, accuracy kwargs)
 }
 
 
+_TH = {}          # theory objects live as long as the interpreter: a
+#                  history that repeats an operation REUSES the object
+
+
 def _hop(name):
     from holopy.scattering.theory import (MieLens, AberratedMieLens, Lens,
                                           Mie)
     kind, ang, m, x, kz, acc = HOPS[name]
     sph, pts = _setup(m, x, kz)
     det = H.det_points(pts[:9])
-    with warnings.catch_warnings():
-        warnings.simplefilter("ignore")
-        if kind == "mielens":
-            th = MieLens(ang, acc)
-        elif kind == "abmielens":
-            th = AberratedMieLens([0.05, 0.01], ang)
-        else:
-            th = Lens(ang, Mie(False, False), 48, 48)
-    return digest(np.ascontiguousarray(_field(det, sph, th, _pol(30.0))))
+    key = (kind, ang, repr(sorted(acc.items())))
+    if key not in _TH:
+        with warnings.catch_warnings():
+            warnings.simplefilter("ignore")
+            if kind == "mielens":
+                _TH[key] = MieLens(ang, acc)
+            elif kind == "abmielens":
+                _TH[key] = AberratedMieLens([0.05, 0.01], ang)
+            else:
+                _TH[key] = Lens(ang, Mie(False, False), 48, 48)
+    th = _TH[key]
+    before = repr(th)
+    out = digest(np.ascontiguousarray(_field(det, sph, th, _pol(30.0))))
+    if repr(th) != before:
+        out += "|theory-object-changed"
+    return out
 
 
 def _run_history(case, ck):
